@@ -9,7 +9,10 @@ import (
 	"fmt"
 	"sync"
 	"sync/atomic"
+	"time"
 )
+
+const hangTimeout = 60 * time.Second
 
 type OpKind int
 
@@ -49,6 +52,8 @@ type Run struct {
 	Preempt  []bool
 	Trace    []string
 	Deadlock bool
+	// Hung is set when a thread blocked outside the scheduler's model (harness limitation)
+	Hung     string
 	panicVal any
 }
 
@@ -140,11 +145,35 @@ func (r *Run) Execute() {
 		r.Trace = append(r.Trace, t.name)
 		t.started = true
 		t.resume <- struct{}{}
-		<-r.yielded
+		select {
+		case <-r.yielded:
+		case <-time.After(hangTimeout):
+			// the running thread blocked in something the scheduler does not model (a real lock, a channel):
+			// this is a limitation of the harness, reported as such and never as a property violation
+			r.Hung = fmt.Sprintf("thread %s did not reach a scheduling point within %v; trace %v", t.name, hangTimeout, r.Trace)
+			return
+		}
 		if r.panicVal != nil {
 			panic(r.panicVal)
 		}
 	}
+}
+
+// Waiting describes the threads that are stuck when a deadlock was found.
+func (r *Run) Waiting() []string {
+	var out []string
+	for _, t := range r.threads {
+		if t.done {
+			continue
+		}
+		k := map[OpKind]string{OpYield: "yield", OpLock: "Lock", OpRLock: "RLock"}[t.pending]
+		st := ""
+		if t.lock != nil {
+			st = fmt.Sprintf(" (writer=%v readers=%d)", t.lock.Writer, t.lock.Readers)
+		}
+		out = append(out, t.name+" waits for "+k+st)
+	}
+	return out
 }
 
 // point parks the calling (= currently running) thread with its pending operation.
